@@ -431,3 +431,84 @@ class Case:
         self.st.close()
         self.obs.close()
         return leftover
+
+
+# ------------------------------------------------------------------------------------------ traces for TraceAsyncCancel.tla
+def normalise(ev):
+    """uniform records [e, a, b, id, n (, o)] (TLC reads them with ndJsonDeserialize; a missing field would be an error)"""
+    out = []
+    for e in ev:
+        k = e["e"]
+        d = {"e": k, "a": "", "b": "", "id": 0, "n": 0}
+        if k in ("opstart", "opend"):
+            d.update(a=e["op"], n=e["i"])
+        elif k in ("call", "ret"):
+            d.update(a=e["k"], id=e["id"])
+        elif k == "drv":
+            d.update(a=e["op"], b=e.get("sql", "") or "", id=e["id"], n=e.get("arg", 0) or 0)
+        elif k == "pool":
+            d.update(a=e["ev"], id=e["id"])
+        elif k == "closetask":
+            d.update(a=e["what"])
+        elif k == "closedone":
+            d.update(a=e["what"], b=e["x"])
+        elif k == "cancel":
+            d.update(a=e["t"], n=e["n"])
+        elif k in ("deliver", "timeout"):
+            d.update(n=e["k"])
+        elif k == "ended":
+            d.update(a=e["how"])
+        elif k == "settle":
+            d["o"] = {"co": e["co"], "idle": e["idle"], "open": e["open"], "dirty": e["dirty"], "locked": e["locked"], "rows": e["rows"]}
+        elif k == "fresh":
+            d["o"] = {"ok": e["ok"], "intx": e["intx"], "init": e["init"], "rows": e["rows"]}
+        elif k == "end":
+            d["o"] = {"co": e["co"], "locked": e["locked"], "rows": e["rows"]}
+        elif k == "new":
+            continue
+        out.append(d)
+    return out
+
+
+def harness_invariants(ev):
+    """the property's observable clauses asserted directly on the final observations (independent of TLC)"""
+    E = {}
+    for e in ev:
+        if e["e"] in ("settle", "fresh", "end"):
+            E[e["e"]] = e
+    bad = []
+    se, fr, en = E.get("settle"), E.get("fresh"), E.get("end")
+    if not (se and fr and en):
+        return ["run did not reach its final observations"]
+    cut = ev.index(se)
+    nout = sum(1 for e in ev[:cut] if e["e"] == "pool" and e["ev"] == "checkout")
+    nret = sum(1 for e in ev[:cut] if e["e"] == "pool" and e["ev"] in ("checkin", "detach"))
+    if nret != nout:
+        bad.append("checked out %d time(s), returned %d time(s)" % (nout, nret))
+    if se["co"] != 0 or en["co"] != 0:
+        bad.append("pool.checkedout() = %d at quiescence" % se["co"])
+    if se["dirty"] or se["locked"] or en["locked"]:
+        bad.append("a connection still holds a transaction at quiescence (dirty %r, database locked %r)" % (se["dirty"], se["locked"] or en["locked"]))
+    if not fr["ok"]:
+        bad.append("a fresh checkout afterwards fails (%s)" % fr.get("err"))
+    else:
+        if fr["intx"]:
+            bad.append("fresh connection reports in_transaction()")
+        if fr["rows"] != se["rows"]:
+            bad.append("fresh connection sees rows %r, committed %r" % (fr["rows"], se["rows"]))
+        if not fr["init"]:
+            bad.append("dialect never initialised")
+    # rows visible at the end = rows inserted before a commit effect that was not preceded by the cancellation of its block
+    committed, pend = set(), set()
+    for e in ev[:cut]:
+        if e["e"] == "drv":
+            if e["op"] == "exec" and e["sql"] == "INSERT":
+                pend.add(e["arg"])
+            elif e["op"] == "commit":
+                committed |= pend
+                pend = set()
+            elif e["op"] in ("rollback", "close", "stop"):
+                pend = set()
+    if not set(se["rows"]) <= committed | pend:
+        bad.append("rows %r visible that no commit published" % (se["rows"],))
+    return bad
